@@ -301,6 +301,10 @@ pub fn check(sc: &Scenario, ex: &mut Exec) -> (Verdict, Option<String>) {
             }
         }
     }
+    // the same reading for the EXISTENCE of rows: how many rows are published may depend on the
+    // protected rows only through a noised quantity (a thresholded count)
+    let mut rows_noise_dep = on_d.iter().skip(1).any(|rs| rs.rows.len() != on_d[0].rows.len());
+    let mut rows_data_dep: Option<String> = None;
     // data dependence: same forced schedule, one unit's rows removed from the protected tables
     let coupled: Vec<usize> = vec![0, 3, plans.len() - 2]; // neutral, z+2, release_all
     let mut data_dep = vec![false; ncols];
@@ -321,9 +325,15 @@ pub fn check(sc: &Scenario, ex: &mut Exec) -> (Verdict, Option<String>) {
                     }
                     // the noise may be invisible on D (a variance held at its clamp by the data)
                     // and visible on the neighbouring instance: either way the column is noised
+                    if rows_data_dep.is_none() && rs.rows.len() != on_d[*pi].rows.len() {
+                        rows_data_dep = Some(format!("{} under {} ({} rows instead of {})", u, plans[*pi].0, rs.rows.len(), on_d[*pi].rows.len()));
+                    }
                     match &first_minus {
                         None => first_minus = Some(rs.clone()),
                         Some(f) => {
+                            if rs.rows.len() != f.rows.len() {
+                                rows_noise_dep = true;
+                            }
                             for i in 0..ncols {
                                 if column_multiset(&rs, i) != column_multiset(f, i) {
                                     noise_dep[i] = true;
@@ -355,6 +365,18 @@ pub fn check(sc: &Scenario, ex: &mut Exec) -> (Verdict, Option<String>) {
                 witness: json!({"column": on_d[0].columns[i], "unit": witness_unit[i], "rows_on_D": on_d[0].rows.len()}),
             });
         }
+    }
+    if let (Some(w), false) = (&rows_data_dep, rows_noise_dep) {
+        violations.push(Violation {
+            property: "C02".into(),
+            invariant: "row_set_data_dependent_not_noise_dependent".into(),
+            class: "unclassified".into(),
+            detail: format!(
+                "the number of published rows changes when the rows of unit {} are removed from the protected tables, but no schedule of the engine's noise draws (0, +-0.5 .. +-16 sigma, release all / none) changes it: which rows exist is an exact function of protected rows",
+                w
+            ),
+            witness: json!({"unit": w, "rows_on_D": on_d[0].rows.len()}),
+        });
     }
     let any_data = data_dep.iter().any(|b| *b);
     let kind = if any_data { "data_dependent" } else if noise_dep.iter().any(|b| *b) { "noise_only" } else { "constant" };
